@@ -261,7 +261,7 @@ pub fn budget(prop: &str, tier: Tier) -> u64 {
         "C13" => (3_000, 40_000),
         "C15" => (60_000, 600_000),
         "C16" => (12_000, 120_000),
-        "C17" => (12_000, 120_000),
+        "C17" => (12_000, 80_000),
         "C18" => (60_000, 800_000),
         _ => (1000, 10_000),
     };
